@@ -243,6 +243,7 @@ def exec_for(st, s):
         assigned_names(s.body + s.orelse) + [n.id for n in ast.walk(s.target) if isinstance(n, ast.Name)]
     havoc_locals(st, names)
     calls.havoc(st, targets)
+    st.bump_alloc()        # earlier iterations may have allocated
     kk = st.fresh(I, '_k')
     st.assume(z3.And(0 <= kk, kk <= it.n))
     st.locals[kname] = Val(T.INT, kk)
@@ -308,6 +309,7 @@ def exec_while(st, s):
     targets = loop_frame(st, lc)
     havoc_locals(st, assigned_names(s.body + s.orelse))
     calls.havoc(st, targets)
+    st.bump_alloc()        # earlier iterations may have allocated
     assume_invs(st, lc)
     dec0 = None
     if 'dec' in lc:
